@@ -2,7 +2,7 @@
 
    Each table row is one per-lane field of an MB_MGR_*_OOO structure:
 
-       F name  w_submit t_flush  c_submit c_flush_ret c_flush_null  claim
+       F name  w_submit t_flush  c_submit c_flush_ret c_flush_null  claim       (FJ: k_junk set)
 
    transcribed from the submit / flush routines and their %ifdef SAFE_DATA blocks (file names in
    the comments; "x4/x8" = SSE / AVX / AVX2 kernels, "vaes" = VAES AVX512 kernels that keep the
@@ -28,7 +28,10 @@ Import ListNotations.
 Open Scope string_scope.
 
 Definition F (name : string) (ws tf cs cfr cfn cl : bool) : fspec :=
-  mk_fspec name ws tf cs cfr cfn cl.
+  mk_fspec name ws tf cs cfr cfn false cl.
+(* a field that the kernel turns into job-independent garbage in lanes without a job *)
+Definition FJ (name : string) (ws tf cs cfr cfn cl : bool) : fspec :=
+  mk_fspec name ws tf cs cfr cfn true cl.
 Definition T := true.
 Definition N := false.
 
@@ -147,13 +150,19 @@ Definition fam_zuc_eia3_avx512 : family :=
     F "args.ks"      T T  T T T  T;
     F "state"        T T  T T T  T ].
 
-(* SNOW3G-UEA2 / UIA2: sse_t1/mb_mgr_snow3g_{uea2,uia2}_submit_flush_x4_sse.asm,
-   avx512_t2/mb_mgr_snow3g_{uea2,uia2}_submit_flush_vaes_avx512.asm
-   ("clear finished job lane: LFSR, FSM", "clear keystream for processed job").  Flush initialises
-   empty lanes with the key and IV of a valid lane. *)
+(* SNOW3G-UEA2: sse_t1/mb_mgr_snow3g_uea2_submit_flush_x4_sse.asm,
+   avx512_t2/mb_mgr_snow3g_uea2_submit_flush_vaes_avx512.asm
+   ("clear finished job lane: LFSR, FSM" on the single completion path shared by submit and flush).
+   Flush does not copy keys: the kernel is given the mask of lanes in use, but it clocks all lanes,
+   so the zeroed LFSR/FSM of a job-less lane turns into key-independent garbage (k_junk). *)
 Definition fam_snow3g_uea2 : family :=
-  [ F "args.keys"     T T  N N N  N;
-    F "args.LFSR_FSM" T T  T T T  T ].
+  [ F  "args.keys"     T N  N N N  N;
+    FJ "args.LFSR_FSM" T N  T T N  T ].
+(* SNOW3G-UIA2: sse_t1/mb_mgr_snow3g_uia2_submit_flush_x4_sse.asm,
+   avx512_t2/mb_mgr_snow3g_uia2_submit_flush_vaes_avx512.asm
+   ("clear keystream for processed job").  Flush copies the key and IV pointers of a valid lane to
+   the empty lanes and initialises ALL lanes: the empty lanes receive the same LFSR/FSM state and
+   the same five keystream words as the valid job.  The property needs them cleared as well. *)
 Definition fam_snow3g_uia2_x8 : family :=
   [ F "args.keys"     T T  N N N  N;
     F "args.LFSR_FSM" T T  T T T  T;
@@ -209,7 +218,12 @@ Definition instances : list instance :=
 
 Definition instances_ok : bool := forallb (fun i => family_ok (i_fam i)) instances.
 
-(* what checks/c13.py reads: (architecture class, (manager, field)) for every claimed field *)
+(* what checks/c13.py reads: (architecture class, (manager, field)) for every claimed field;
+   claimed_clean: must be all-zero in a lane without a job; claimed_junk: may hold garbage there,
+   which must not depend on any key or text *)
 Definition claimed_clean : list (string * (string * string)) :=
   flat_map (fun i => map (fun f => (i_arch i, (i_ooo i, f_name f)))
-                         (filter claim (i_fam i))) instances.
+                         (filter (fun f => claim f && negb (k_junk f)) (i_fam i))) instances.
+Definition claimed_junk : list (string * (string * string)) :=
+  flat_map (fun i => map (fun f => (i_arch i, (i_ooo i, f_name f)))
+                         (filter (fun f => claim f && k_junk f) (i_fam i))) instances.
